@@ -160,6 +160,25 @@ func makeWorld(t *rapid.T) *world {
 	return w
 }
 
+// rootEndingInWhitespace re-issues the genuine root (PSS signatures are salted, so every issue has
+// other signature bytes) until its DER encoding ends in an ASCII white-space byte; nil if none came
+// up within the bound (about 1 issue in 43 does).
+func (w *world) rootEndingInWhitespace() *x509.Certificate {
+	if c, ok := w.lazy["rootWS"]; ok {
+		return c.cert
+	}
+	w.lazy["rootWS"] = &certAndKey{key: pki.Key(0)}
+	for i := 0; i < 600; i++ {
+		c := pki.MakeCert(pki.CertSpec{CN: "verif-root", Serial: 1, NotBefore: w.rnb, NotAfter: w.rna, IsCA: true, Key: pki.Key(0)})
+		switch c.Raw[len(c.Raw)-1] {
+		case '\t', '\n', '\v', '\f', '\r', ' ':
+			w.lazy["rootWS"].cert = c
+			return c
+		}
+	}
+	return nil
+}
+
 func (w *world) get(name string) *certAndKey {
 	if c, ok := w.lazy[name]; ok {
 		return c
